@@ -31,7 +31,7 @@ CHECKS = {
             "Token-concatenation is asserted for include-free inputs and for the include graphs of the split route; termination is a CPU-time bound; witnesses are delta-minimised with a bounded number of child runs.", "DESIGN.md §5 C13"),
     "C16": ("exploration", "runtime monitoring: API-level monitor of overlay_feature_variations against the source rule semantics at sampled points + end-to-end: generated designspace <rules> compiled by the CLI, FeatureVariations evaluated by an independent raw-bytes interpreter",
             "API level: random rule lists are overlaid by the real code and the returned boxes evaluated (first containing box wins) at sampled normalized locations against 'all applicable rules in order, earlier wins'. End to end: designspace rules (1-5 rules, 1-2 condition sets, conditions on 1-3 axes in design coordinates through axis maps, open-ended / nested / identical boxes, one-sided axes, rvrn and rclt) are compiled and every glyph is pushed through the font's FeatureVariations + lookups at box edges +-1/2 quanta, centres, extremes and the default. Asserted on points more than 1.5 F2Dot14 quanta from every box edge where applicable rules do not conflict; conflicting points are reported under known finding F8.",
-            "Exact-edge points are counted, not asserted (the overlay drops zero-width intersections like fontTools); only normalized locations the axis can reach are sampled; Glyphs bracket layers come from the corpus (C01/C05), not from the generator.", "DESIGN.md §5 C16, §9"),
+            "Exact-edge points are counted, not asserted (the overlay drops zero-width intersections like fontTools); only normalized locations the axis can reach are sampled; the same rule models are also rendered as Glyphs bracket layers (substitutes identified through post names, compared by outline and - at every master, one of which links its metrics to the first - by advance); composites of bracket glyphs come from the corpus only.", "DESIGN.md §5 C16, §9"),
     "C03": ("exploration", "runtime monitoring: compiled variable fonts instantiated at every master by an independent gvar tuple-scalar + IUP evaluator, compared point by point with the generator's manifest",
             "Generated variable sources are compiled by the real CLI; each glyph is instantiated at each of its master locations by my own evaluator and compared with the rounded master outline / component offsets under the property's own bound (0.5 + 0.5 x sum of active scalars; default exact, correspondence discovered by exact match of the default outline).",
             "read-fonts decodes the tables, every evaluation rule (tents, IUP, phantom points) is re-implemented; cubic sources are compiled and checked by C12/C05 but not pointwise here; restructured composites (nested / non-export / flatten) are compared by C12.", "DESIGN.md §5 C03"),
